@@ -1,9 +1,67 @@
-import SieveModel.Model.Client
-/-! # C08 — placeholder, theorems follow (codec round trip) -/
+import SieveModel.Lemmas.Codec
+/-!
+# C08 — Each client call puts exactly one well-formed command on the wire
+
+`Rfc5804.command` is a strict server-side decoder written from the RFC 5804 ABNF, independent of
+the client model.  Proved for every verb (non-empty, alphabetic), every argument list and every
+byte string as name or content — including quotes, backslashes, CR, LF, NUL, `{n}` look-alikes:
+the bytes of the command line decode to exactly the intended command and nothing is left over, so
+no value can end the command early or smuggle a second one.
+-/
 namespace C08
-theorem quote_is_delimited (a : Bytes) : (Client.quote a).head? = some 34 ∧ (Client.quote a).getLast? = some 34 := by
-  unfold Client.quote
-  constructor
-  · simp
-  · rw [List.getLast?_append]; simp
+open Client Rfc5804 Codec
+
+/-- strings are quoted with `\\` and `\"` escaped: the strict decoder returns the caller's bytes -/
+theorem quoted_string_decodes_to_value (a rest : Bytes) (h : hasCtl a = false) :
+    quotedTail (escapeQ a ++ 34 :: rest) = some (a, rest) :=
+  quotedTail_escapeQ a rest h
+
+/-- literal lengths equal the byte length of the content: the decoder takes exactly the content -/
+theorem literal_decodes_to_content (c rest : Bytes) :
+    literalTail ((literalOf c).drop 1 ++ rest) = some (c, rest) :=
+  literalTail_literalOf c rest
+
+/-- numbers are unquoted decimal and parse back -/
+theorem number_roundtrip (n : Nat) :
+    B.natToDec n ≠ [] ∧ (∀ d ∈ B.natToDec n, B.isDigit d = true) ∧ B.decToNat (B.natToDec n) = n :=
+  natToDec_spec n
+
+/-- the whole command line: exactly one command of the intended verb with the caller's values -/
+theorem command_line_decodes_to_intended_command (name : Bytes) (ws : List WArg) (rest : Bytes)
+    (hne : name ≠ []) (hn : ∀ c ∈ name, isAlpha c = true) :
+    command (commandBytes name ws ++ rest) = some (name, ws.map valueOf, rest) :=
+  command_commandBytes name ws rest hne hn
+
+/-- what one exchange writes: the command line, on the current channel, and nothing else -/
+theorem exchange_writes_one_command (c : Client) (name : Bytes) (ws : List WArg) (nbl : Option Nat)
+    (hc : c.connected = true) :
+    (sendCommand c name ws [] nbl).2.writes = c.writes ++ [(c.tls, commandBytes name ws)] := by
+  unfold sendCommand awaitReply afterWrites
+  simp only [hc, Bool.not_true, Bool.false_eq_true, if_false, List.foldl_nil]
+  cases Reader.readResponse nbl (write c (commandBytes name ws)).r with
+  | error e => simp [write]
+  | ok p => simp [write]
+
+/-- instances for the script operations (every name / content, hostile or not) -/
+theorem putscript_on_the_wire (name content rest : Bytes) :
+    command (commandBytes (sb "PUTSCRIPT") [.str name, .lit content] ++ rest)
+      = some (sb "PUTSCRIPT", [.str name, .str content], rest) :=
+  command_commandBytes _ _ rest (by decide) (by decide)
+
+theorem renamescript_on_the_wire (old new rest : Bytes) :
+    command (commandBytes (sb "RENAMESCRIPT") [.str old, .str new] ++ rest)
+      = some (sb "RENAMESCRIPT", [.str old, .str new], rest) :=
+  command_commandBytes _ _ rest (by decide) (by decide)
+
+theorem havespace_on_the_wire (name rest : Bytes) (size : Nat) :
+    command (commandBytes (sb "HAVESPACE") [.str name, .num size] ++ rest)
+      = some (sb "HAVESPACE", [.str name, .num size], rest) :=
+  command_commandBytes _ _ rest (by decide) (by decide)
+
+/-- non-vacuity: a name that tries to close the string and add LOGOUT stays one argument -/
+example : command (commandBytes (sb "DELETESCRIPT") [.str (sb "a\"\r\nLOGOUT")])
+    = some (sb "DELETESCRIPT", [.str (sb "a\"\r\nLOGOUT")], []) := by
+  have := command_commandBytes (sb "DELETESCRIPT") [.str (sb "a\"\r\nLOGOUT")] [] (by decide) (by decide)
+  simpa [valueOf] using this
+
 end C08
